@@ -218,9 +218,14 @@ class CFG:
             if isinstance(a, ast.Assign):
                 for t in a.targets:
                     out |= {x.id for x in ast.walk(t) if isinstance(x, ast.Name) and isinstance(x.ctx, ast.Store)}
+                    # pseudo variable for the object's own stored state: "@self.state"
+                    if isinstance(t, ast.Attribute) and isinstance(t.value, ast.Name) and t.value.id == "self":
+                        out.add("@self." + t.attr)
             elif isinstance(a, (ast.AnnAssign, ast.AugAssign)):
                 if getattr(a, "value", None) is not None and isinstance(a.target, ast.Name):
                     out.add(a.target.id)
+                if isinstance(a.target, ast.Attribute) and isinstance(a.target.value, ast.Name) and a.target.value.id == "self":
+                    out.add("@self." + a.target.attr)
             elif isinstance(a, (ast.Import, ast.ImportFrom)):
                 out |= {(x.asname or x.name.split(".")[0]) for x in a.names}
             elif isinstance(a, (ast.FunctionDef, ast.ClassDef)):
